@@ -94,6 +94,13 @@ func DrawEnv(t *rapid.T, opt EnvOpt) *Env {
 				ks.Fields = append(ks.Fields, Field{Name: name, Type: ft})
 			}
 			e.ExtKeys = append(e.ExtKeys, ks)
+			if !opt.NoBlankFields && rapid.IntRange(0, 2).Draw(t, "extkeyblank") == 0 {
+				// a blank field in front of (or between) the fields of an imported struct: generated code that reaches
+				// unexported fields by position or by name has to skip it
+				bf := Field{Name: "_", Type: B(pick(t, "extkeyblanktype", []string{"int", "uint32", "string", "bool"}))}
+				at := rapid.IntRange(0, len(ks.Fields)-1).Draw(t, "extkeyblankat")
+				ks.Fields = append(ks.Fields[:at], append([]Field{bf}, ks.Fields[at:]...)...)
+			}
 			ns := rapid.IntRange(1, 2).Draw(t, "extstructs")
 			var local []*Decl
 			for j := 0; j < ns; j++ {
@@ -106,8 +113,22 @@ func DrawEnv(t *rapid.T, opt EnvOpt) *Env {
 					}
 					d.Fields = append(d.Fields, Field{Name: name, Type: e.drawExtFieldType(t, xp, nb, ks, local, d, 2)})
 				}
+				if !opt.NoBlankFields && len(d.Fields) > 0 && rapid.IntRange(0, 2).Draw(t, "extblank") == 0 {
+					bf := Field{Name: "_", Type: B(pick(t, "extblanktype", []string{"int", "uint32", "string", "bool"}))}
+					at := rapid.IntRange(0, len(d.Fields)-1).Draw(t, "extblankat")
+					d.Fields = append(d.Fields[:at], append([]Field{bf}, d.Fields[at:]...)...)
+				}
 				local = append(local, d)
 				e.ExtStructs = append(e.ExtStructs, d)
+			}
+			if !opt.NoPrivateExt && !opt.ExportedOnly {
+				// a struct none of whose fields can be reached from another package without reflection
+				pv := &Decl{Name: "Priv", Pkg: xp, IsStruct: true, Fields: []Field{{Name: "a", Type: B(pick(t, "priva", []string{"int64", "string", "uint8"}))}}}
+				if rapid.Bool().Draw(t, "privb") {
+					pv.Fields = append(pv.Fields, Field{Name: "b", Type: B(pick(t, "privbt", []string{"string", "bool", "float64"}))})
+				}
+				local = append(local, pv)
+				e.ExtStructs = append(e.ExtStructs, pv)
 			}
 			if i == 0 {
 				e.foreign = append([]*Decl{nb, ks}, local...)
